@@ -84,6 +84,10 @@ Inductive c03_case :=
          (coded : option (coding * N * N))
          (sent : bytes) (seen : h2_seen) (next_on_same_conn : bool)
 | H1GzCuts (hlen : N) (fr : framing) (wire z : bytes) (plain_len : N) (obs : list (N * option (bool * N)))
+(* HTTP/3: one whole response stream (the bytes behind the response HEADERS frame, its body)
+   cut at the listed offsets: (offset, how the stream ended, what the caller saw, follow-up on
+   the same connection) *)
+| H3Cuts (blocks : list hblock) (full body : bytes) (obs : list (N * h3end * h3_seen * bool))
 (* one complete HTTP/1.1 exchange whose head carries the Content-Length lines [vals] (peer keeps
    the connection open) *)
 | H1ClLines (hlen : N) (vals : list N) (wire body : bytes) (seen : h1_seen) (next_on_same_conn : bool)
@@ -164,6 +168,15 @@ Definition c03_check (c : c03_case) : bool :=
                end
         | _, _ => false
         end
+  | H3Cuts blocks full body obs =>
+      forallb (fun o =>
+        let '(k, e, seen, same) := o in
+        match h3_exchange blocks (firstn_N k full) e, seen with
+        | Some (d, r), H3SeenRead r' dlen pok =>
+            h3wres_eqb r r' && (N.of_nat (length d) =? dlen)%N && pok
+            && bytes_eqb d (firstn_N dlen body) && Bool.eqb (h3_conn_usable e r) same
+        | _, _ => false
+        end) obs
   | H1ClLines hlen vals wire body seen same =>
       let o := h1_read_cl_lines hlen vals wire in
       seen_matches body o seen &&
